@@ -54,6 +54,10 @@ pub fn gen_case(rng: &mut Rng, _thorough: bool, case: u64) -> J {
     // (think of an output directory on a slow share).  The budget is far below the report channel's capacity, so the
     // optimisation must not care: finished evaluations are replaced all the same.
     let stalled = !barrier && !zero_budget && !immediate && crits.len() == 1 && rng.chance(1, 4);
+    // ... and in some of these a time limit expires while the controller has finished and the report writer is still
+    // waiting for the sink: the result is there, the limit has nothing left to stop
+    let stalled_late = stalled && rng.chance(1, 3);
+    if stalled_late { crits.push((json!({"after": 1500}), TerminationCriterion::TerminateAfter(Duration::from_millis(1500)))); }
     let fail_at = if !barrier && !stalled && rng.chance(1, 4) { Some(rng.below(n1 as u64 + 5) as usize) } else { None };
     let rej_permille = *rng.pick(&[0u64, 0, 200]);
     let calls = Arc::new(AtomicUsize::new(0));
@@ -88,12 +92,18 @@ pub fn gen_case(rng: &mut Rng, _thorough: bool, case: u64) -> J {
             let t0 = std::time::Instant::now();
             while calls.load(Ordering::SeqCst) < n1 && t0.elapsed() < Duration::from_secs(8) { std::thread::sleep(Duration::from_millis(2)); }
             let started = calls.load(Ordering::SeqCst);
+            if stalled_late { std::thread::sleep(Duration::from_millis(2300)); }
             let mut content = String::new();
             if let Ok(mut f) = std::fs::File::open(&path) { let _ = std::io::Read::read_to_string(&mut f, &mut content); }
             (started, content)
         }))
     } else { None };
     let spec = spec_util::from_yaml_str(SPEC).unwrap();
+    // a guess of JSON null does not conform to this spec (its root is a mapping): rejected before anything is evaluated
+    let null_guess = !barrier && !stalled && rng.chance(1, 10);
+    let guess: Option<J> = if null_guess { Some(J::Null) } else { None };
+    let cap_len = || std::env::var("CVH_STDOUT_CAP").ok().and_then(|p| std::fs::metadata(p).ok()).map(|m| m.len()).unwrap_or(0);
+    let cap0 = cap_len();
     // the never-suspending family also runs with sample size 2 or 3: from 20 individuals on, re-evaluations give an
     // individual further seeds, so ids and seeds part company (they coincide for ever at sample size 1)
     let ss_run = if immediate { *rng.pick(&[1usize, 2, 3]) } else { 1 };
@@ -111,10 +121,16 @@ pub fn gen_case(rng: &mut Rng, _thorough: bool, case: u64) -> J {
             }
         }
         drop(obj);
-        sync_launch::launch_with_async_obj_func(spec, Imm { calls: calls.clone(), scale, pairs: pairs.clone() }, cfg, crits.iter().map(|c| c.1.clone()).collect::<Vec<_>>(), None, false, Some(&info))
+        let cr = crits.iter().map(|c| c.1.clone()).collect::<Vec<_>>();
+        std::panic::catch_unwind(std::panic::AssertUnwindSafe(|| sync_launch::launch_with_async_obj_func(spec, Imm { calls: calls.clone(), scale, pairs: pairs.clone() }, cfg, cr, guess.clone(), false, Some(&info))))
     } else {
-        sync_launch::launch(spec, obj, cfg, crits.iter().map(|c| c.1.clone()).collect::<Vec<_>>(), None, threaded, Some(&info))
+        let cr = crits.iter().map(|c| c.1.clone()).collect::<Vec<_>>();
+        std::panic::catch_unwind(std::panic::AssertUnwindSafe(|| sync_launch::launch(spec, obj, cfg, cr, guess.clone(), threaded, Some(&info))))
     };
+    let panicked = res.is_err();
+    let res = match res { Ok(r) => r, Err(_) => Err(Error::ClientHungUp) };
+    { use std::io::Write; let _ = std::io::stdout().flush(); }
+    let stdout_noise = cap_len().saturating_sub(cap0);
     let (stalled_started, csv) = match reader {
         Some(h) => { let (k, c) = h.join().unwrap(); (Some(k), c) }
         None => (None, std::fs::read_to_string(dir.join("report.csv")).unwrap_or_default()),
@@ -141,6 +157,8 @@ pub fn gen_case(rng: &mut Rng, _thorough: bool, case: u64) -> J {
         Err(Error::ConflictingTerminationCriteria) => json!("conflict"),
         Err(Error::ObjFuncValMustBeFinite) => json!("nonFinite"),
         Err(Error::NoIndividuals) => json!("noIndividuals"),
+        Err(_) if panicked => json!("panic"),
+        Err(e) if null_guess && !matches!(e, Error::Io(_) | Error::ClientHungUp) => json!({"badGuess": e.to_string()}),
         Err(e) => json!({"other": e.to_string()}),
     };
     // `AlgoConfigBuilder::build` on a few option combinations (absent / 0 / positive)
@@ -155,7 +173,7 @@ pub fn gen_case(rng: &mut Rng, _thorough: bool, case: u64) -> J {
         let r2 = enc(b.build());
         cfgs.push(json!({"ss": ssz, "nc": ncc, "res": r, "again": r2}));
     }
-    json!({"mode": "run", "configs": cfgs, "criteria": crits.iter().map(|c| c.0.clone()).collect::<Vec<_>>(), "nc": nc, "threaded": threaded, "barrier": barrier, "immediate": immediate, "tiny": scale != 1.0, "failAt": fail_at,
+    json!({"mode": "run", "nullGuess": null_guess, "stdoutNoise": stdout_noise, "stalledLate": stalled_late, "configs": cfgs, "criteria": crits.iter().map(|c| c.0.clone()).collect::<Vec<_>>(), "nc": nc, "threaded": threaded, "barrier": barrier, "immediate": immediate, "tiny": scale != 1.0, "failAt": fail_at,
            "calls": calls.load(Ordering::SeqCst), "maxLive": max_live.load(Ordering::SeqCst), "ret": ret,
            "csvRows": rows.len(), "rowObjs": row_objs, "rowInputs": row_inputs, "bestFile": best_file, "bestLate": best_late, "stalledStarted": stalled_started,
            "sampleSize": ss_run, "rowPairs": if immediate { json!(row_pairs) } else { J::Null }, "callPairs": if immediate { json!(call_pairs) } else { J::Null }})
